@@ -192,6 +192,27 @@ def h_loop(ctx, il, n0, lm, bound, passes=MAX_PASSES):
         ctx.prove("C06.every_level_has_its_optimal_size_within_1pct_on_return", ok, info=info, replay=(replay_sizes, _scenario(ctx, crit, il, n0, lm, bound)))
 
 
+def h_config(ctx, il, n0, lm, passes=3):
+    """initial_level above maximum_level: either the configuration is rejected, or no sample is ever simulated above the maximum level
+    (checked when the run returns and also when it is cut off by the pass limit of this harness)"""
+    try:
+        eng, prod, reg, crit, df, notional = make_engine(ctx, il, n0, lm, 1)
+    except ValueError:
+        ctx.prove("C06.never_simulates_above_maximum_level", True)
+        return
+    crit.max_calls = passes
+    eng.configuration.convergence_criteria.compute_mc_paths = _limited(crit)
+    rmse = ctx.real("rmse")
+    ctx.assume(rmse > 0)
+    try:
+        eng.price(prod, rmse)
+    except (PathAbort, ZeroDivisionError, ValueError, IndexError):
+        pass
+    base_sc = _scenario(ctx, crit, il, n0, lm, 1)
+    ctx.prove("C06.never_simulates_above_maximum_level", reg.max_level_simulated <= lm, info={"il": il, "n0": n0, "lm": lm, "configuration": "initial_level > maximum_level"},
+              replay=(replay_loop_facts, lambda m: dict(base_sc(m), what="above_max")))
+
+
 def replay_exit(sc):
     """real engine with the scenario's answers: did it leave through the 'paths probably too low' fall-through below maximum_level?"""
     import logging
@@ -232,9 +253,11 @@ def replay_loop_facts(sc):
     logging.getLogger().addHandler(hnd)
     try:
         try:
-            stats, reg, crit = run_scenario(sc)
+            stats, reg, crit = run_scenario(sc, keep_on_abort=sc.get("what") == "above_max")
         except (ZeroDivisionError, PathAbort):
             return False, "run did not complete"
+        except ValueError as e:
+            return False, f"configuration rejected: {e}"
     finally:
         logging.getLogger().removeHandler(hnd)
     lm = sc["level_max"]
@@ -302,6 +325,8 @@ def harnesses(tier):
         [(0, 1, 1, 3, 4), (0, 2, 1, 3, 4), (1, 1, 1, 3, 4), (1, 1, 2, 2, 3), (1, 2, 2, 3, 2), (2, 1, 3, 1, 4), (0, 1, 2, 2, 3), (0, 3, 0, 4, 5)]
     for il, n0, lm, b, ps in cfgs:
         hs.append(Harness(f"loop.L{il}.N{n0}.M{lm}.B{b}.P{ps}", h_loop, {"il": il, "n0": n0, "lm": lm, "bound": b, "passes": ps}, max_paths=120000 if not q else 30000, batch=10))
+    for il, lm in ((1, 0), (2, 1)):
+        hs.append(Harness(f"config.L{il}.M{lm}", h_config, {"il": il, "n0": 1, "lm": lm}, max_paths=4000, batch=10))
     hs.append(Harness("twin", h_twin, twin="must_fail"))
     return hs
 
